@@ -40,11 +40,13 @@ pub struct NodeCfg {
     /// the record advertises a UDP port other than the one the node really sends from
     /// (a NATed peer or a stale record)
     pub advertise_other_port: bool,
+    /// the node listens on (and advertises) an IPv6 address
+    pub v6: bool,
 }
 
 impl NodeCfg {
     pub fn new(ident: usize) -> Self {
-        NodeCfg { ident, request_timeout_ms: 1000, request_retries: 1, session_timeout_ms: 86_400_000, session_capacity: 1000, packet_filter: false, enr_seq: 1, advertise_other_port: false }
+        NodeCfg { ident, request_timeout_ms: 1000, request_retries: 1, session_timeout_ms: 86_400_000, session_capacity: 1000, packet_filter: false, enr_seq: 1, advertise_other_port: false, v6: false }
     }
 }
 
@@ -63,6 +65,16 @@ pub struct Node {
 
 pub fn addr_of(idx: usize) -> SocketAddr {
     SocketAddr::new(IpAddr::V4(Ipv4Addr::new(10, 0, (idx + 1) as u8, 1)), 9000 + idx as u16)
+}
+pub fn addr6_of(idx: usize) -> SocketAddr {
+    SocketAddr::new(IpAddr::V6(std::net::Ipv6Addr::new(0xfd00, 0, 0, 0, 0, 0, (idx + 1) as u16, 1)), 9000 + idx as u16)
+}
+pub fn node_addr(cfg: &NodeCfg, idx: usize) -> SocketAddr {
+    if cfg.v6 {
+        addr6_of(idx)
+    } else {
+        addr_of(idx)
+    }
 }
 
 /// Where a datagram that reaches a node really came from.
@@ -140,6 +152,10 @@ pub struct NetProfile {
     pub max_delay_ms: u32,
     pub base_latency_ms: u32,
     pub jitter_ms: u32,
+    /// a delivered copy has one bit flipped
+    pub corrupt_pct: u32,
+    /// an additional stale copy arrives 50..2500 ms later
+    pub replay_pct: u32,
 }
 
 pub struct HWorld<X> {
@@ -193,13 +209,12 @@ impl<X> HWorld<X> {
     }
 
     pub fn record_for(cfg: &NodeCfg, idx: usize) -> Enr {
-        let a = addr_of(idx);
-        let ip = match a.ip() {
-            IpAddr::V4(v4) => v4.octets(),
-            _ => unreachable!(),
-        };
+        let a = node_addr(cfg, idx);
         let port = if cfg.advertise_other_port { a.port() + 1000 } else { a.port() };
-        ident::record(ident::RecSpec { ident: cfg.ident, seq: cfg.enr_seq, ip4: Some((ip, port)), ip6: None, pad: 0 })
+        match a.ip() {
+            IpAddr::V4(v4) => ident::record(ident::RecSpec { ident: cfg.ident, seq: cfg.enr_seq, ip4: Some((v4.octets(), port)), ip6: None, pad: 0 }),
+            IpAddr::V6(v6) => ident::record(ident::RecSpec { ident: cfg.ident, seq: cfg.enr_seq, ip4: None, ip6: Some((v6.octets(), port)), pad: 0 }),
+        }
     }
 
     pub fn key_of(&self, idx: usize) -> CombinedKey {
@@ -207,7 +222,7 @@ impl<X> HWorld<X> {
     }
 
     async fn spawn_handler(cfg: &NodeCfg, idx: usize) -> (oneshot::Sender<()>, mpsc::UnboundedSender<HandlerIn>, mpsc::Receiver<HandlerOut>, Endpoint, Enr) {
-        let addr = addr_of(idx);
+        let addr = node_addr(cfg, idx);
         let enr = Self::record_for(cfg, idx);
         let key = ident::pool()[cfg.ident].key();
         let listen = match addr {
@@ -232,7 +247,7 @@ impl<X> HWorld<X> {
     pub async fn add_node(&mut self, cfg: NodeCfg) -> usize {
         let idx = self.nodes.len();
         let (exit, tx, rx, ep, enr) = Self::spawn_handler(&cfg, idx).await;
-        self.nodes.push(Node { id: enr.node_id(), addr: addr_of(idx), enr, cfg, alive: true, exit: Some(exit), to_handler: Some(tx), from_handler: Some(rx), ep: Some(ep), restarts: 0 });
+        self.nodes.push(Node { id: enr.node_id(), addr: node_addr(&cfg, idx), enr, cfg, alive: true, exit: Some(exit), to_handler: Some(tx), from_handler: Some(rx), ep: Some(ep), restarts: 0 });
         self.inbound.push(vec![]);
         self.outs.push(vec![]);
         idx
@@ -288,7 +303,7 @@ impl<X> HWorld<X> {
     pub fn contact(&self, idx: usize, with_enr: bool) -> NodeContact {
         let n = &self.nodes[idx];
         if with_enr {
-            NodeContact::try_from_enr(n.enr.clone(), IpMode::default()).expect("contactable")
+            NodeContact::try_from_enr(n.enr.clone(), if n.cfg.v6 { IpMode::Ip6 } else { IpMode::default() }).expect("contactable")
         } else {
             NodeContact::new(n.enr.public_key(), n.addr, None)
         }
@@ -446,7 +461,23 @@ impl<X> HWorld<X> {
                 note.push_str(&format!(" DUPx{copies}"));
             }
         }
+        if self.faults_on && p.replay_pct > 0 && ctx.tape.choose(100) < p.replay_pct {
+            let lat = 50 + ctx.tape.choose(2450) as u64;
+            ctx.fault("late_replay");
+            note.push_str(&format!(" REPLAY+{lat}"));
+            self.schedule(lat, Ev::Deliver { to, src: w.src, bytes: w.bytes.clone(), origin: Origin::Genuine { wire: wire_idx, from: w.from } });
+        }
         for _ in 0..copies {
+            if self.faults_on && p.corrupt_pct > 0 && ctx.tape.choose(100) < p.corrupt_pct {
+                let mut bytes = w.bytes.clone();
+                let bit = ctx.tape.choose(bytes.len() as u32 * 8) as usize;
+                bytes[bit / 8] ^= 1 << (bit % 8);
+                ctx.fault("bit_flip");
+                note.push_str(&format!(" FLIP{bit}"));
+                let lat = p.base_latency_ms as u64;
+                self.schedule(lat, Ev::Deliver { to, src: w.src, bytes, origin: Origin::Mutated { wire: wire_idx, how: "bit_flip" } });
+                continue;
+            }
             let mut lat = p.base_latency_ms as u64 + if p.jitter_ms > 0 { ctx.tape.choose(p.jitter_ms + 1) as u64 } else { 0 };
             if self.faults_on && p.delay_pct > 0 && ctx.tape.choose(100) >= 100 - p.delay_pct {
                 lat += 1 + ctx.tape.choose(p.max_delay_ms.max(1)) as u64;
